@@ -744,7 +744,7 @@ def check_detinv(case, r, bad):
 HEADER = '''From Coq Require Import QArith Qcanon ZArith List Bool Arith.
 From Verif.lib Require Import Bsp.
 From Verif.C09 Require Import Model.
-From Verif.gen Require Import C09_leggauss.
+From Verif.%(gen)s Require Import C09_leggauss.
 Import ListNotations.
 '''
 
@@ -822,9 +822,11 @@ def coq_case_asym(case, r, A, R):
     return t
 
 
-def coq_file(bodies):
-    """bodies: list of (case index, module body).  One Eval: failing checks as 100*case + check."""
-    t = HEADER
+def coq_file(bodies, genrel):
+    """bodies: list of (case index, module body).  One Eval: failing checks as 100*case + check.
+    genrel: the run's own directory of generated files (ctx.genrel, e.g. 'gen/r1234'): the tables
+    imported are the ones regenerated and checked in THIS run."""
+    t = HEADER % {'gen': genrel.replace('/', '.').replace(os.sep, '.')}
     t += 'Definition flat_bad (cs : list (nat * list bool)) : list nat :=\n'
     t += '  flat_map (fun kc => map (fun b => (100 * fst kc + b)%nat) (bad_cases 0 (snd kc))) cs.\n'
     for k, body in bodies:
@@ -958,13 +960,13 @@ def run(ctx):
                 kv, p = kvF(c)
                 _, R, _, _ = orc.exact_biform(kv, p, kv, p, c['du'], c['dv'], orc.mesh_of(kv), c['wf'], c['nqp'])
                 A = np.load(r['A'])
-                selftest = coq_file([(k, coq_case_1d(c, r, A, R, perturb=(0, 0, 4 * R[0][0] + F(1, 2 ** 40))))])
+                selftest = coq_file([(k, coq_case_1d(c, r, A, R, perturb=(0, 0, 4 * R[0][0] + F(1, 2 ** 40))))], ctx.genrel)
                 selfexp = [100 * k + CHECK_NAMES_1D.index('matrix-entries')]
                 break
         nfiles = 16 if thorough else 4
         groups = [bodies[i::nfiles] for i in range(nfiles)]
         groups = [g for g in groups if g]
-        files = [('C09_cases_%03d' % n, coq_file([(k, body) for (k, body, _) in g])) for n, g in enumerate(groups)]
+        files = [('C09_cases_%03d' % n, coq_file([(k, body) for (k, body, _) in g], ctx.genrel)) for n, g in enumerate(groups)]
         names_of = {k: names for (k, _, names) in bodies}
         if selftest:
             files.append(('C09_selftest', selftest))
